@@ -444,11 +444,18 @@ func Render(r *rand.Rand, proto_ string, c LogCase) Request {
 				}
 			}
 			sl := &otlpLogs.ScopeLogs{Scope: &otlpCommon.InstrumentationScope{Name: "sc", Attributes: scA}}
+			if len(scA) == 0 && r.Intn(2) == 0 {
+				sl.Scope = nil // the scope is optional in OTLP
+			}
 			for _, e := range s.Entries {
 				sl.LogRecords = append(sl.LogRecords, &otlpLogs.LogRecord{TimeUnixNano: uint64(e.TsNs), Attributes: recA,
 					Body: &otlpCommon.AnyValue{Value: &otlpCommon.AnyValue_StringValue{StringValue: e.Line}}})
 			}
-			ld.ResourceLogs = append(ld.ResourceLogs, &otlpLogs.ResourceLogs{Resource: &otlpRes.Resource{Attributes: resA}, ScopeLogs: []*otlpLogs.ScopeLogs{sl}})
+			rl := &otlpLogs.ResourceLogs{Resource: &otlpRes.Resource{Attributes: resA}, ScopeLogs: []*otlpLogs.ScopeLogs{sl}}
+			if len(resA) == 0 && r.Intn(2) == 0 {
+				rl.Resource = nil // so is the resource
+			}
+			ld.ResourceLogs = append(ld.ResourceLogs, rl)
 		}
 		b, err := proto.Marshal(ld)
 		if err != nil {
